@@ -369,6 +369,11 @@ def emit():
     A("-- GENERATED by tools/translate.py from /repo/src on every run. Do not edit.")
     A("namespace Shp")
     A("")
+    A("/-- a `match code { k => Some(a), ..., _ => None }` table: the first matching arm wins -/")
+    A("def lookupCode {α : Type} : List (Int × α) → Int → Option α")
+    A("  | [], _ => none")
+    A("  | (k, a) :: rest, c => if c = k then some a else lookupCode rest c")
+    A("")
     A("/-- `enum ShapeType` of src/lib.rs -/")
     A("inductive ShapeType where")
     for n in names:
@@ -381,11 +386,10 @@ def emit():
     A("def code : ShapeType → Int")
     for n, c in variants:
         A(f"  | .{lname(n)} => {c}")
+    A("/-- the arms of `ShapeType::from` -/")
+    A("def codeTable : List (Int × ShapeType) := [" + ", ".join(f"({c}, .{lname(n)})" for c, n in arms) + "]")
     A("/-- `ShapeType::from` -/")
-    A("def ofCode (c : Int) : Option ShapeType :=")
-    for c, n in arms:
-        A(f"  if c = {c} then some .{lname(n)} else")
-    A("  none")
+    A("def ofCode (c : Int) : Option ShapeType := lookupCode codeTable c")
 
     def pred(fn, lean):
         neg, lst = preds[fn]
@@ -477,11 +481,10 @@ def emit():
     A("  deriving DecidableEq, Repr, Inhabited")
     A("namespace PatchKind")
     A("def all : List PatchKind := [" + ", ".join("." + lname(n) for _, n in parms) + "]")
+    A("/-- the arms of `PatchType::from` -/")
+    A("def codeTable : List (Int × PatchKind) := [" + ", ".join(f"({c}, .{lname(n)})" for c, n in parms) + "]")
     A("/-- `PatchType::from` -/")
-    A("def ofCode (c : Int) : Option PatchKind :=")
-    for c, n in parms:
-        A(f"  if c = {c} then some .{lname(n)} else")
-    A("  none")
+    A("def ofCode (c : Int) : Option PatchKind := lookupCode codeTable c")
     A("/-- code written by `Multipatch::write_to` for `Patch::X` -/")
     A("def code : PatchKind → Int")
     for n, c in pwr:
